@@ -30,7 +30,8 @@ KNOBS = {"entries": ["Policy", "Policy.context"], "p_abort": 0.25, "p_abort_if":
          "p_budget": 0.25, "p_generous": 0.55, "p_ok": 0.2, "p_retryable": 0.8, "p_single_call": 0.5, "max_calls": 4}
 RULE = ("seeded swarm over Policy/AsyncPolicy x call/execute x with/without retry with a spy breaker; C03 scenario space "
         "plus injected abort / KeyboardInterrupt / SystemExit / task cancellation; sequences and concurrent calls sharing "
-        "the spy; distinct by trace shape; non-trivial = >=1 failed attempt or fault")
+        "the spy; 12% falsy breaker object, 18% one exception object aliased across calls/policies with disagreeing classifiers, "
+        "12% failures raised while handling a nested rejection; distinct by trace shape; non-trivial = >=1 failed attempt or fault")
 COMPONENTS = dict(common.REAL_COMPONENTS, stub=common.REAL_COMPONENTS["stub"] + ["circuit breaker (pure spy: always admits, records calls)"])
 ASSUMPTIONS = ["calls in which a user callback (attempt hook, classifier, strategy) raises are only held to R1 (exactly one record)",
                "GeneratorExit and nested policy errors are C08's domain and not generated",
@@ -45,6 +46,8 @@ def gen(seed, tier="quick"):
     twist = r.random()
     if twist < 0.12:
         scn["cfg"]["breaker"]["falsy"] = True      # a breaker object whose truth value is False
+    if 0.42 <= twist < 0.54:
+        scn["cfg"]["breaker"]["reject"] = sorted(r.sample(range(0, 5), r.randint(1, 2)))   # the spy refuses these admissions
     alias = 0.12 <= twist < 0.3 and len(scn["calls"]) > 1
     for ci, c in enumerate(scn["calls"]):
         for st in c["attempts"]:
@@ -69,7 +72,7 @@ def gen(seed, tier="quick"):
         if y < 0.1:
             c["attempts"][r.randrange(n)] = {"kind": "abort", "dur": 0}
         elif y < 0.22:
-            c["attempts"][r.randrange(n)] = {"kind": "base", "exc": r.choice(["KeyboardInterrupt", "SystemExit"] + (["CancelledError"] if scn["mode"] == "async" else [])), "dur": 0}
+            c["attempts"][r.randrange(n)] = {"kind": "base", "exc": r.choice(["KeyboardInterrupt", "SystemExit", "HybridInterrupt", "HybridExit", "HybridCancelled"] + (["CancelledError"] if scn["mode"] == "async" else [])), "dur": 0}
         elif y < 0.3:
             c.setdefault("faults", []).append({"site": "sleeper", "at": r.randrange(0, 2), "exc": r.choice(["KeyboardInterrupt", "SystemExit"]), "kind": "base_exc"})
         elif y < 0.42 and scn["mode"] == "async":
@@ -98,13 +101,17 @@ def oracle(scn, trace):
         recs = [e for e in cf.events if e["ev"] == "BREAKER" and e["m"] != "allow"]
         admitted = any(e["ev"] == "BREAKER" and e["m"] == "allow" and e["ret"] for e in cf.events)
         if not admitted:
+            if recs:
+                out.append(V("R1", "breaker record made by a call that was not admitted",
+                             {"entry": ent, "call": cid, "records": [(r["m"], r.get("cls")) for r in recs]}))
             continue
         end = cf.end
         # expected record
         last = infos[-1] if infos else None
         cancelled = False
         why = None
-        if end["how"] == "raise" and end["exc"]["type"] in ("KeyboardInterrupt", "SystemExit", "CancelledError", "AbortRetryError"):
+        if end["how"] == "raise" and end["exc"]["type"] in ("KeyboardInterrupt", "SystemExit", "CancelledError", "AbortRetryError",
+                                                             "HybridInterrupt", "HybridExit", "HybridCancelled"):
             cancelled, why = True, end["exc"]["type"]
         elif end["how"] == "outcome" and end["out"]["stop_reason"] == "ABORTED":
             cancelled, why = True, "ABORTED outcome"
